@@ -37,7 +37,7 @@ CLAIMED = {
     },
     "C03": {
         "text": "Loaders over shape-only tomograms and molecules with symbolic position/orientation tags, on the real polars and the real dask.delayed: the k-th loading task is identified (tomogram read + molecule whose position z3 proves equal to the sampled centre) as molecule k on the tomogram registered for its id - for single loaders, batches with every image-id ordering of length 2-4, groups and derived loaders; "
-                "per-molecule kwargs k and apply() row k belong to subtomogram k; derived loaders hold exactly the selected molecules; groups partition; derived groups are re-iterable; sources untouched. apply(f_0..f_k-1) on loaders and groups: cell (i, j) = f_j of the sub-tomogram of molecule i, also for square tables (k = n) and k = 1; derived batches do not share their image registry with the parent; all tasks of a loader computed in one real dask graph.",
+                "per-molecule kwargs k and apply() row k belong to subtomogram k; derived loaders hold exactly the selected molecules; groups partition; derived groups are re-iterable; sources untouched. apply(f_0..f_k-1) on loaders and groups: cell (i, j) = f_j of the sub-tomogram of molecule i, also for square tables (k = n) and k = 1; derived batches do not share their image registry with the parent; all tasks of a loader computed in one real dask graph. Tomogram ids registered in several portions plus tomograms without molecules; groupby on tables that carry a '.index' feature.",
         "note": "Trusted: z3, symx, real polars (Object columns), real dask.delayed (synchronous), C02's affine_transform contract. Bounds: 3-4 molecules per loader well inside 200^3 tomograms, 2-3 tomograms, operation sequences <= 2. Not covered: classification write-back (C18 n/a; same task order), polars internals.",
         "ref": "DESIGN.md §4 C03",
     },
@@ -49,7 +49,7 @@ CLAIMED = {
     },
     "C11": {
         "text": "Molecules methods executed on symbolic unit quaternions / positions / shifts: x,y,z = images of (0,0,1),(0,1,0),(1,0,0), orthonormal, z = cross_zyx(x,y); world rotations compose on the left and keep positions; internal rotations compose on the right; translate_internal adds R.s; closed forms of linear_transform and of inv=True (exact inverse); copy=True never touches the original; "
-                "affine_matrix and local_coordinates = pos(/scale) + R(k - centre); quat/matrix/Euler representation round trips (Euler as an uninterpreted inverse pair + translate_euler involution on all 54 sequences). All polynomial identities modulo |q|=1, decided by nlsat.",
+                "affine_matrix and local_coordinates = pos(/scale) + R(k - centre); quat/matrix/Euler representation round trips (Euler as an uninterpreted inverse pair + translate_euler involution on all 54 sequences). All polynomial identities modulo |q|=1, decided by nlsat. Batches: (N,3) per-molecule rotation vectors and shifts move row i by its own vector (N = 2).",
         "note": "Trusted: z3, symx, SymRotation contract. Bounds: axes/coords with an arbitrary unit quaternion; rotation-vector operations with 4 (quick) / 30 exact rational molecule orientations. Rotation from two axes: _get_align_rotator executed on batches mixing a symbolic generic unit vector with anti-parallel and parallel rows (sqrt/arctan2 uninterpreted, from_rotvec recorded row-wise): anti-parallel rows get a half turn about an orthogonal axis, parallel rows the identity, "
                 "and for generic rows rotvec/theta is a unit axis about which Rodrigues' rotation by the angle with (sin,cos)=(|src x dst|, src.dst) maps src to dst; axes_to_rotator on axis-aligned frames with symbolic signs (1 and 2 rows) returns the given z and y. "
                 "NOT covered: axes_to_rotator as a whole on generic frames (composition of two symbolic axis-angle rotations), non-unit / non-orthogonal input axes.",
@@ -80,7 +80,7 @@ CLAIMED = {
         "ref": "DESIGN.md §4 C08",
     },
     "C09": {
-        "text": "average/average_split/LoaderGroup.average(_split) executed on a loader whose i-th subtomogram is a one-voxel symbolic image, dask.array replaced by a stack/mean/compute stub and the random generator by a stub with symbolic picks: the explorer covers every possible split; z3 proves average = arithmetic mean, the two halves are the means of a partition into two non-empty sets (N>=2), their count-weighted mean is the full average, same seed => same split, n_set draws successive picks from one stream, group averages use each group's own molecules. Loader reuse: loading does not modify the molecules (C02's fact) and MockLoader never writes into the caller's template, so an average is the mean of what a second load returns.",
+        "text": "average/average_split/LoaderGroup.average(_split) executed on a loader whose i-th subtomogram is a one-voxel symbolic image, dask.array replaced by a stack/mean/compute stub and the random generator by a stub with symbolic picks: the explorer covers every possible split; z3 proves average = arithmetic mean, the two halves are the means of a partition into two non-empty sets (N>=2), their count-weighted mean is the full average, same seed => same split, n_set draws successive picks from one stream, group averages use each group's own molecules. Loader reuse: loading does not modify the molecules (C02's fact) and MockLoader never writes into the caller's template, so an average is the mean of what a second load returns. The stack stand-in has chunk layouts (one chunk, (n-1,1), (1,n-1)): the mean does not depend on it; continuous random draws of a splitter are symbols in [0,1).",
         "note": "Trusted: z3, symx, DaskArrayStub (numpy meaning of stack/mean/compute), RngStub (choice returns elements of its argument, repetition allowed; stream determined by the seed), real polars. Bounds: N<=5 (average), N in 2..4/2..6 (splits), n_set<=2. NOT covered (stated): 'however the tomogram is chunked' - dask's chunked reductions are environment; BatchLoader.average shares LoaderBase.average (task order is C03).",
         "ref": "DESIGN.md §4 C09",
     },
@@ -92,7 +92,7 @@ CLAIMED = {
                 "a violating schedule is replayed on the real model with an attribute-level scheduler. On the pinned tree no such method exists besides the cache. (iv) bin_image on real dask arrays of symbolic voxels gives the same block sums for irregular chunkings (C15's section). "
                 "(v) task k of construct_loading_tasks samples around molecule k for a tomogram stub with a dask chunk layout (2-3 chunks per axis) and symbolic molecule positions. "
                 "(vi) delayed tasks that share a random generator: the real MockLoader tilt-series simulation runs on a recording dask shim with arrays as terms of an uninterpreted sort and the k-th draw of a generator as draw(g,k); "
-                "for every execution order of the sibling projection tasks z3 decides equality of the result with the reference order; replay with fresh graphs under the synchronous and threaded schedulers.",
+                "for every execution order of the sibling projection tasks z3 decides equality of the result with the reference order; replay with fresh graphs under the synchronous and threaded schedulers. (vii) module-level memoised arrays (lru_cache active): masks / Butterworth weights do not depend on the calls made before (C08's and C16's cache-history sections). (viii) AST scan of every acryo module for in-place writes to objects handed out by lru_cache functions, with an interleaving query for two tasks and a replay under the synchronous vs threaded scheduler. (ix) numpy and dask input of the same element type are interpolated in the same element type.",
         "note": "Trusted: z3, symx, the CPython dict model in checks/c10_cache.py, HybridNdi, real dask (synchronous) for (iv). Assumptions of (iii): called functions are pure and return objects, attribute loads/stores are atomic, np.array/asarray/copy preserve the value, two tasks optionally preceded by one completed call; "
                 "methods with loops/try/with are reported as inconclusive. (vi): every array operation is an uninterpreted function, each task runs once, a delayed body that needs concrete data and takes no generator is an uninterpreted function of its arguments. "
                 "NOT covered (stated): equality of results across dask schedulers / worker counts for the loaders as a whole - dask's own execution semantics are not encoded; shared mutable arrays written inside tasks.",
@@ -149,7 +149,7 @@ CLAIMED = {
         "text": "pick_molecules / _pick_in_chunk_wrapped / get_params_and_depth / MoleculesBox / Molecules.concat executed on the REAL dask (synchronous scheduler) over an image of position codes cut into concrete chunks (1-6 per axis, incl. chunks thinner than the "
                 "overlap depth and axes shorter than it), so each block tells which global voxels it holds; particle coordinates, the scale and the detector's behaviour near block borders are symbolic. Per path z3 decides: exactly one molecule per planted "
                 "particle, at coordinate*scale (1 particle anywhere, 2 well separated). Template matcher: one rotated template per searched rotation, rotated about the box centre by the inverse rotation (exact rational quaternions); overlap depth covers every "
-                "owned centre given the landscape geometry of C04; centre = landscape position + (s+1)/2; returned quaternion = searched rotation of the arg-max template; chunked picking with the matcher's per-axis depth. LoG/DoG: sigma_px = sigma/scale, depth - 1/2 >= exclusion radius. Boundary modes of map_overlap: default 'nearest', constant 0, 'reflect', per-axis dict/tuple.",
+                "owned centre given the landscape geometry of C04; centre = landscape position + (s+1)/2; returned quaternion = searched rotation of the arg-max template; chunked picking with the matcher's per-axis depth. LoG/DoG: sigma_px = sigma/scale, depth - 1/2 >= exclusion radius. Boundary modes of map_overlap: default 'nearest', constant 0, 'reflect', per-axis dict/tuple. The exclusion footprint of find_maxima is the closed ball of a symbolic radius in [0, 3] (identity below one voxel).",
         "note": "Trusted: real dask.array (map_overlap, from_array), real polars, z3, symx. The scipy part of pick_in_chunk is replaced by an idealised detector (stated in the evidence): must report a particle whose r-neighbourhood lies in the block, may report nearer ones, "
                 "may report one spurious border maximum. Bounds: images <= 16 voxels per axis, scale in [0.6, 1.5], sigma 1 nm, templates up to (4,2,6)/(3,5,3), K <= 5. Not covered: whether LoG/DoG/ZNCC maxima coincide with particle centres on real content, "
                 "min-distance suppression, dtype handling, exact ties (a blob centred exactly between two voxels).",
